@@ -7,7 +7,9 @@ decoder (table by id, required check, unknown-field skipping), slices, maps, set
 
 The model describes the code AS IT IS: the binary protocol writes the *compact* type codes (the `Type` enum
 values regenerated from thrift.go), compact doubles are big-endian, message headers as coded.
-Not modelled: the io.Reader plumbing (the model reads from a byte list = bytes.Reader), union fields, embedded
+Unions (a struct with a field tagged `thrift:",union"`): Enc/Model/ThriftUnion.lean (`encodeU`, `decodeU`, …), of which the
+functions of this file are the restriction to types without a union field (Lemmas/ThriftUnionCons.lean, ThriftUnionDec.lean).
+Not modelled: the io.Reader plumbing (the model reads from a byte list = bytes.Reader), embedded
 (anonymous) struct flattening, unsupported kinds (unsigned integers, which `encodeFuncOf` rejects with a panic),
 types that contain themselves (`type L []L`: the model's types are finite trees), the text of error messages.
 
